@@ -549,6 +549,7 @@ package termincommittee
 //@     invariant [every-vote-with-proof-is-in-res] forall k :: 0 <= k && k < $i && HasProof(confirmations[k]) ==> (exists p :: 0 <= p && p < len(res) && res[p] == confirmations[k])
 
 //@ func (*TermInCommittee).initView
+//@   assert before call RegisterOnElection [O19.the-election-timer-is-armed-for-the-height-and-the-view-just-entered] $blockHeight == tic.State.height && $view == newView
 //@   props C07 C10 C13 C19 C12
 //@   safety iface
 //@   requires TicOK(tic)
@@ -626,6 +627,7 @@ package termincommittee
 //@ func (*TermInCommittee).HandleViewChange
 //@   requires [term-not-yet-committed] ncommitted == 0
 //@   ensures [O9.lock-kept] LockKept(tic, old(tic.preparedLocally), old(tic.preparedLocally.isPreparedLocally), old(tic.preparedLocally.latestView))
+//@   assert before call ValidateBlockCommitment [O4.the-block-shipped-with-a-vote-is-checked-against-the-proven-hash] $blockHeight == vcm.content.SignedHeader().BlockHeight() && $block == vcm.block && $blockHash == vcm.content.SignedHeader().PreparedProof().PreprepareBlockRef().BlockHash()
 //@   props C08 C09 C07 C10 C12 C11
 //@   safety iface
 //@   requires TicOK(tic)
@@ -658,6 +660,7 @@ package termincommittee
 //@   ensures [view-monotone] tic.State.view >= old(tic.State.view) && tic.State == old(tic.State) && lastVC == old(lastVC)
 //@   requires [term-not-yet-committed] ncommitted == 0
 //@   ensures [O9.lock-kept] LockKept(tic, old(tic.preparedLocally), old(tic.preparedLocally.isPreparedLocally), old(tic.preparedLocally.latestView))
+//@   assert before call RequestNewBlockProposal [O4.a-new-block-is-requested-for-this-height-in-this-node-name-on-top-of-the-previous-block] $blockHeight == tic.State.height && $memberId == tic.myMemberId && $prevBlock == tic.prevBlock
 //@   props C07 C09 C10 C04 C15 C12
 //@   safety iface
 //@   requires TicOK(tic)
@@ -741,6 +744,7 @@ package termincommittee
 
 //@ func (*TermInCommittee).startTerm
 //@   assert before call For [O15.7.proposal-requested-under-the-context-of-its-own-view] $hv.height == tic.State.height && $hv.view == 0
+//@   assert before call RequestNewBlockProposal [O4.a-new-block-is-requested-for-this-height-in-this-node-name-on-top-of-the-previous-block] $blockHeight == tic.State.height && $memberId == tic.myMemberId && $prevBlock == tic.prevBlock
 //@   props C10 C14 C15 C12
 //@   safety iface
 //@   requires TicOK(tic)
